@@ -11,6 +11,7 @@ import GraphiqModel.Proofs.StateToGraphDensity
 import GraphiqModel.Proofs.StateToGraphNegativity
 import GraphiqModel.Proofs.StateToGraphHilbert
 import GraphiqModel.Proofs.StateToGraphGaugeIndep
+import GraphiqModel.Proofs.StateToGraphTableau
 import GraphiqModel.Proofs.GraphStateGroup
 namespace Graphiq.C08
 open Graphiq Graphiq.PRow Graphiq.Tab Graphiq.STab
@@ -131,6 +132,22 @@ theorem state_to_graph_correct (t : STab) (hn : 0 < t.n) (hstate : IsStabilizerS
       (∀ i j, i < t.n → j < t.n → adj.f i j = adj.f j i) ∧ (∀ i, i < t.n → adj.f i i = false) := by
   obtain ⟨adj, gates, h⟩ := state_to_graph_exact_complete t hn hstate
   exact ⟨adj, gates, h, state_to_graph_sound S2G.gf2InvF t hstate.1.real adj gates h⟩
+
+/-- **`state_to_graph` on a `CliffordTableau`** (the code converts `tableau.to_stabilizer()`; every n ≥ 1): the stabilizer half of every
+    VALID Clifford tableau — the invariant `Tab.Valid` (the 2n rows form a symplectic basis), which `C07.history_valid` proves for every
+    tableau reachable from a valid one by gates, measurements, resets, insertions, removals, partial traces — is a stabilizer state in
+    the sense of `IsStabilizerState` (each destabilizer row anticommutes with exactly one stabilizer row, so the stabilizer rows are
+    independent), hence it is converted, exactly: `state_to_graph` returns on every tableau the simulator can hold -/
+theorem state_to_graph_complete_on_valid_tableau (T : Tab) (hn : 0 < T.n) (hv : T.Valid) :
+    IsStabilizerState (STab.ofTab T) ∧
+    ∃ adj gates, S2G.stateToGraph (STab.ofTab T) = .ok (adj, gates) ∧
+      ∀ p, ((STab.ofTab T).runCircuit gates).Spn p ↔ (graphSTab T.n adj.f).Spn p := by
+  have hs : IsStabilizerState (STab.ofTab T) := ofTab_good_indep T hv
+  obtain ⟨adj, gates, h, hsound, _⟩ := state_to_graph_correct (STab.ofTab T) hn hs
+  exact ⟨hs, adj, gates, h, hsound.2⟩
+
+/-- non-vacuity: the Clifford tableau of `|0⟩⊗|0⟩` (destabilizers `X_i`, stabilizers `Z_i`) is valid -/
+example : 0 < (Tab.ket0 2).n ∧ (Tab.ket0 2).Valid := ⟨by decide, (Tab.isSymplectic_iff _).mp (by decide)⟩
 
 /-- `state_to_graph_exact_complete` with the hypothesis spelled out in primitive terms (no auxiliary definitions): the rows carry no
     i-phase, their symplectic products vanish pairwise, and a GF(2) combination of the rows `[x | z]` vanishes only trivially -/
